@@ -54,7 +54,7 @@ CHECK_DEADLOCK TRUE
 """
 MODES = ("nodb", "db", "tpl")
 WATCHDOG = 30.0             # seconds per parse of a short text (normal: ~1 ms)
-PUMP_WATCHDOG = 300.0       # seconds per pumped parse (normal: < 1 s)
+PUMP_WATCHDOG = 200.0       # seconds per pumped parse (normal: < 1 s)
 MAX_HANGS = 2               # per worker job
 MAXNEST = 40
 DEGREE = 3
@@ -243,7 +243,10 @@ def _pump_worker(args):
     db = W.build_wikidb(os.path.join(scratch, "pdb-%d" % job), lang)
     counter = W.CallCounter()
     results = []
+    hung = 0
     for idx, atoms, net, peak in items:
+        if hung:
+            break                       # one hang per job is enough; do not wait for the watchdog again and again
         for sname, mode, series in pump_series(atoms, net, peak, idx):
             counts = []
             verdict = None
@@ -261,6 +264,7 @@ def _pump_worker(args):
                     break
                 except W.Hang:
                     verdict = "no result within %ds at n=%d" % (PUMP_WATCHDOG, n)
+                    hung += 1
                     break
                 except Exception as e:                               # noqa: BLE001
                     verdict = "raises " + W.crash_key("parse_string", e)
@@ -283,6 +287,12 @@ def pump_all(ctx, items, lang):
     for r in W.pmap(ctx, _pump_worker, jobs):
         out += r
     return out
+
+
+def _growth_key(sname, atoms, verdict):
+    if verdict.startswith("raises "):
+        return verdict[len("raises "):]          # crash key: entry point, exception class, innermost mwlib frame
+    return "growth %s atoms=%s" % (sname.split(" ")[0], json.dumps(atoms))
 
 
 # ----------------------------------------------------------------------------- the check
@@ -373,6 +383,8 @@ def run(ctx):
     raised, malformed, tstates, ttrans = validate_traces(ctx, keys)
     raise_keys = {keys[i] for i in raised}
     for cid, mode, lang, key, what, tkey in crashes:
+        if len(ctx.violations) >= 40:
+            break
         if tkey not in raise_keys:
             ctx.machinery("a parse raised (%s) but TLC accepted its trace" % key)
         report_crash(ctx, cases[cid][0], mode, lang, key, what)
@@ -409,6 +421,9 @@ def run(ctx):
     items = [(cid, c[0], c[1], c[2]) for cid, c in sorted(chosen.items())]
     rnd.shuffle(items)
     t2 = time.time()
+    if hangs:
+        ctx.note("parses hang: the growth measurements are skipped (every pumped text would wait for its watchdog)")
+        items = []
     pumped = pump_all(ctx, items, W.LANGS[ctx.seed % len(W.LANGS)])
     ctx.note("growth: %d texts pumped in %.0fs" % (len(items), time.time() - t2))
     nseries = nmeasured = 0
@@ -416,13 +431,10 @@ def run(ctx):
         nseries += 1
         nmeasured += len(counts)
         if verdict:
-            if verdict.startswith("raises "):
-                report_crash(ctx, atoms, mode + " pumped " + sname, "-", verdict[len("raises "):], verdict)
-            else:
-                ctx.violation("growth %s atoms=%s" % (sname.split(" ")[0], json.dumps(atoms)),
-                              "%s series of %r (%s): %s" % (sname, W.concretise(atoms)[:60], mode, verdict),
-                              {"kind": "growth", "atoms": atoms, "series": sname, "mode": mode,
-                               "net": chosen[idx][1], "peak": chosen[idx][2], "idx": idx, "counts": counts})
+            robj = {"kind": "growth", "atoms": atoms, "series": sname, "mode": mode,
+                    "net": chosen[idx][1], "peak": chosen[idx][2], "idx": idx, "counts": counts}
+            ctx.violation(_growth_key(sname, atoms, verdict),
+                          "%s series of %r (%s): %s" % (sname, W.concretise(atoms)[:60], mode, verdict), robj)
     ctx.set_cover(evaluations=nparse + nmeasured, distinct_nontrivial=len(structured), exhaustive=True,
                   texts=len(cases), texts_parsed=selected, parses=nparse, enumerated=sizes, languages=len(W.LANGS),
                   distinct_stage_traces=len(keys), raising_stage_traces=len(raise_keys),
@@ -462,7 +474,7 @@ def replay(ctx, path):
         res = _pump_worker((0, lang, [(rec["idx"], atoms, rec["net"], rec["peak"])], ctx.scratch))
         bad = [x for x in res if x[5] and x[2] == rec["series"]]
         for idx, atoms, sname, mode, counts, verdict in bad:
-            ctx.violation("growth %s atoms=%s" % (sname.split(" ")[0], json.dumps(atoms)), verdict, rec)
+            ctx.violation(_growth_key(sname, atoms, verdict), verdict, rec)
         if not bad:
             print("replay: the series now fits the bound")
         return
